@@ -1,0 +1,19 @@
+//go:build verif
+
+// Contracts for the client-side stream writer, read by /verif/govc.
+package streamwriter
+
+//@ iface Stream.Send
+//@ iface Stream.CloseAndRecv
+//@   modifies world.closed
+//@   ensures verdict: result1 == serverVerdict(this)
+//@   ensures closed:  world.closed[this] && forall s any :: s != this ==> world.closed[s] == old(world.closed[s])
+
+// Close flushes the buffered tail, closes the stream and reports the server's verdict:
+// it returns nil only if the server accepted the upload.
+//@ func (*writer).Close
+//@   requires wf:      w != nil && w.stream != nil
+//@   modifies world.closed
+//@   ensures  verdict: result == nil ==> serverVerdict(w.stream) == nil && world.closed[w.stream]
+//@   ensures  failed:  result != nil ==> world.closed[w.stream] == old(world.closed[w.stream]) || serverVerdict(w.stream) != nil
+//@   ensures  others:  forall s any :: s != w.stream ==> world.closed[s] == old(world.closed[s])
